@@ -242,7 +242,24 @@ func mutate(r *vschema.Rand, bs []byte) []byte {
 			b = append(b, byte(r.U64())|0x80)
 		}
 	case 4:
-		b = protowire.AppendTag(b, protowire.Number(1+r.Intn(40)), protowire.EndGroupType)
+		if r.Bool() {
+			b = protowire.AppendTag(b, protowire.Number(1+r.Intn(40)), protowire.EndGroupType)
+			break
+		}
+		// an (unknown) group that contains a record with an adversarial length, at top level or wrapped
+		// in a length-delimited record of a random (possibly map / message) field
+		lens := []uint64{1<<63 - 1, 1<<63 - 9, 1 << 62, 1<<31 - 1, 1 << 32, ^uint64(0) >> 1}
+		g := protowire.AppendTag(nil, protowire.Number(100+r.Intn(400)), protowire.StartGroupType)
+		g = protowire.AppendTag(g, protowire.Number(1+r.Intn(9)), protowire.BytesType)
+		g = protowire.AppendVarint(g, lens[r.Intn(len(lens))])
+		g = append(g, 0, 0)
+		g = protowire.AppendTag(g, protowire.Number(100), protowire.EndGroupType)
+		if r.Bool() {
+			w := protowire.AppendTag(nil, protowire.Number(1+r.Intn(40)), protowire.BytesType)
+			w = protowire.AppendBytes(w, g)
+			g = w
+		}
+		b = append(b, g...)
 	default:
 		k := 1 + r.Intn(10)
 		b = make([]byte, k)
@@ -327,7 +344,7 @@ func decodeCase(out *Out, t *Target, g *vval.StreamGen, bs []byte, into *vval.Va
 			out.Count("float32_snan_skipped_for_reference")
 			return
 		}
-		if modelOK && !merge {
+		if modelOK && !merge && (err == nil || !malformed) {
 			out.Line("B", "rdecn "+t.S.ID+" 0 "+flags+" "+hx+" "+vval.Empty(t.S, 0).String(), "ok "+refVal.String())
 		}
 		if err != nil {
